@@ -358,10 +358,25 @@ def install_ideal_mac():
             tok = hashlib.sha256(b"verif-mac-token-%d" % len(M.log)).digest()[:16]
             if M.mode == "reader" and M.windows_of is not None:
                 fe = sym.byte_exprs(M.windows_of)
+                cons = []
                 with NoTracing():
-                    sp = context_statespace()
                     for s in range(0, len(fe) - 15):
-                        sp.add(fe[s] != tok[0])
+                        terms, differs = [], False
+                        for j in range(16):
+                            x = fe[s + j]
+                            if z3.is_int_value(x):
+                                if x.as_long() != tok[j]:
+                                    differs = True
+                                    break
+                            else:
+                                terms.append(x != tok[j])
+                        if differs:
+                            continue
+                        if not terms:
+                            raise sym.AssumptionInfeasible("fresh MAC token already present in the file")
+                        cons.append(z3.Or(terms))
+                if cons:
+                    sym.assume(z3.And(cons), check=True)
             M.log.append((self._key, iv, padded, tok))
             return tok
         if M.mode == "writer":
@@ -369,8 +384,7 @@ def install_ideal_mac():
                 if len(p2) == len(padded) and len(k2) == len(self._key):
                     same = z3.And(sym.bytes_equal_expr(k2, self._key), sym.bytes_equal_expr(iv2, iv), sym.bytes_equal_expr(p2, padded))
                     differ = z3.Not(sym.bytes_equal_expr(out2, out))
-                    with NoTracing():
-                        context_statespace().add(z3.Or(same, differ))
+                    sym.assume(z3.Or(same, differ), check=True)
             M.log.append((self._key, iv, padded, out))
             return out
         for (k2, iv2, p2, out2) in M.log:
@@ -383,13 +397,13 @@ def install_ideal_mac():
         oe = sym.byte_exprs(out)
         if M.windows_of is not None:
             fe = sym.byte_exprs(M.windows_of)
+            # A2 in the strengthened form A2': differs already in the first byte (the code
+            # under test only compares whole MACs, so outcomes are the same; this keeps
+            # byte-wise comparisons on one path)
             with NoTracing():
-                sp = context_statespace()
-                for s in range(0, len(fe) - 15):
-                    # A2 in the strengthened form A2': differs already in the first byte (the code
-                    # under test only compares whole MACs, so outcomes are the same; this keeps
-                    # byte-wise comparisons on one path)
-                    sp.add(fe[s] != oe[0])
+                cons = [fe[s] != oe[0] for s in range(0, len(fe) - 15)]
+            if cons:
+                sym.assume(z3.And(cons), check=True)
         return out
 
     Proxy.mac = mac
